@@ -256,6 +256,26 @@ def run(tier):
                                 f"relative={mx.relative_mass} absolute={mx.absolute_mass}", {"text": txt})
             except Exception as exc:
                 v.violation("C02:mixture-rejected", f"{where}({txt!r}) raises {type(exc).__name__}: {exc}", {"text": txt})
+    # distribution parameters in every float syntax (leading dot, trailing dot, exponents, signs, blanks), alone and inside a molecule
+    n_dist = 0
+    from gbigsmiles.distribution import get_distribution
+    for txt, fam, want in (("flory_schulz(.05)", "flory_schulz", [0.05]), ("flory_schulz(5e-2)", "flory_schulz", [0.05]), ("flory_schulz( +.05 )", "flory_schulz", [0.05]),
+                           ("gauss(500., .5)", "gauss", [500.0, 0.5]), ("gauss(5e2,5E-1)", "gauss", [500.0, 0.5]), ("gauss( 500 , 0.5 )", "gauss", [500.0, 0.5]),
+                           ("log_normal(.5e4, 15e-1)", "log_normal", [5000.0, 1.5]), ("log_normal(5000., 1.5)", "log_normal", [5000.0, 1.5]),
+                           ("schulz_zimm(.75e3, .5e3)", "schulz_zimm", [750.0, 500.0]), ("schulz_zimm(750., 500.)", "schulz_zimm", [750.0, 500.0]),
+                           ("uniform(10., .2e3)", "uniform", [10.0, 200.0]), ("uniform(1e1, 2E2)", "uniform", [10.0, 200.0]),
+                           ("poisson(6.5e1)", "poisson", [65.0]), ("poisson(65.)", "poisson", [65.0])):
+        n_dist += 1
+        for where, make in (("get_distribution", lambda t: get_distribution(t)),
+                            ("Molecule", lambda t: g.Molecule("C[>]{[>][<]CC[>][<]}|" + t + "|[<]O").elements[1].distribution)):
+            try:
+                d = make(txt)
+                m_ = re.match(r"\|?\s*([a-z_]+)\s*\((.*)\)\s*\|?$", str(d).strip())
+                got = (m_.group(1), [float(x) for x in m_.group(2).split(",")]) if m_ else (str(d), [])
+                if got[0] != fam or len(got[1]) != len(want) or any(abs(a - b) > 1e-9 * max(1.0, abs(b)) for a, b in zip(got[1], want)):
+                    v.violation("C02:distribution-parameters", f"{where}({txt!r}) denotes {fam}{want} but is read as {got[0]}{got[1]}", {"text": txt})
+            except Exception as exc:
+                v.violation("C02:distribution-rejected", f"{where}({txt!r}) raises {type(exc).__name__}: {exc}", {"text": txt})
     # system texts: every sequence of pieces up to a length (spec/SystemScan.tla), the scanner theorem, replay into System / Molecule
     from . import sysscan
     sviol, scov = sysscan.run(5 if tier == "quick" else 6)
@@ -265,7 +285,7 @@ def run(tier):
     v.coverage = {"states": r.distinct + scov["states"], "transitions": r.generated + scov["states"], "traces_validated_against_impl": n_cmp + n_mol + scov["piece_sequences"],
                   "system_texts": scov,
                   "token_texts_enumerated_by_TLC": len(toks), "max_symbols": L, "concretisations_per_text": K,
-                  "specification_meaning_vs_RDKit_mismatches": spec_mismatch, "molecule_strings_compared": n_mol, "mixture_specifiers_compared": n_mix,
+                  "specification_meaning_vs_RDKit_mismatches": spec_mismatch, "molecule_strings_compared": n_mol, "mixture_specifiers_compared": n_mix, "distribution_texts_compared": n_dist,
                   "samples": samples}
     v.assumptions = ["RDKit's SMILES semantics with the descriptor written as an isotope-labelled dummy atom is the reference meaning of a token",
                      "TokenScan's alphabet: atoms, branches, = and #, up to two ring bonds, descriptors; aromatic / stereo tokens only in the hand-written library"]
